@@ -1010,6 +1010,7 @@ func (u *Unit) loadedFacts(st *State, v Val) {
 	switch v.Ty.Underlying().(type) {
 	case *types.Pointer, *types.Map, *types.Chan:
 		u.assume(and(app("<=", "0", v.T), app("<=", v.T, u.heapCur(st, "$alloc"))))
+		u.typeInvFacts(st, v)
 	case *types.Slice:
 		u.assume(app("<=", app("sl_base", v.T), u.heapCur(st, "$alloc")))
 		u.typeFacts(v)
@@ -1634,4 +1635,30 @@ func goCalleeName(i *ssa.Go) string {
 		return v.Name()
 	}
 	return ""
+}
+
+// typeInvFacts: a loaded non-nil pointer to a named type with a declared `typeinv` is assumed to satisfy it (in the
+// state of the load). Not applied while another type invariant is being expanded (no recursion).
+func (u *Unit) typeInvFacts(st *State, v Val) {
+	if u.cx.cs.TypeInvs == nil || u.inTypeInv {
+		return
+	}
+	pt, ok := types.Unalias(v.Ty).Underlying().(*types.Pointer)
+	if !ok {
+		return
+	}
+	n, ok := types.Unalias(pt.Elem()).(*types.Named)
+	if !ok || n.Obj().Pkg() == nil {
+		return
+	}
+	ti, ok := u.cx.cs.TypeInvs[n.Obj().Pkg().Path()+"."+n.Obj().Name()]
+	if !ok {
+		return
+	}
+	u.inTypeInv = true
+	defer func() { u.inTypeInv = false }()
+	env := &Env{u: u, vars: map[string]Val{"self": v}, cur: st, old: st, pkg: n.Obj().Pkg()}
+	t := env.trBool(ti.E)
+	u.assumeG(st, implies(not(eq(v.T, "0")), t))
+	u.note("type invariant of %s.%s assumed of loaded values: %s", ti.PkgPath, ti.Name, ti.Src)
 }
